@@ -8,6 +8,7 @@ import (
 	"fmt"
 	"io/ioutil"
 	"math/big"
+	"math/rand"
 	"sort"
 	"strconv"
 	"strings"
@@ -655,6 +656,7 @@ func xstateReplay(args []string) error {
 	catf := fs.String("catalog", "", "catalogue JSON written by the Gen module")
 	window := fs.Int("window", 0, "irreversible slide window of the chain")
 	reopen := fs.Bool("reopen", false, "also project a node reopened on a copy of the data after every step")
+	faultPct := fs.Int("faults", 0, "percentage of operations whose (j+1)-th storage write is made to fail (C05)")
 	cutsOn := fs.Bool("cuts", false, "reopen a node after every prefix of each operation's storage writes (crash points)")
 	scale := fs.String("scale", "1", "factor applied to every abstract amount (decimal)")
 	enc := fs.String("enc", "", "lz = outputs carry a leading zero byte")
@@ -676,7 +678,7 @@ func xstateReplay(args []string) error {
 		return err
 	}
 	defer tw.Close()
-	ops, ncuts := 0, 0
+	ops, ncuts, nfaults := 0, 0, 0
 	for k, beh := range behs {
 		s, err := newXSim(fmt.Sprintf("X%d", k), cat, *window)
 		if err != nil {
@@ -684,10 +686,11 @@ func xstateReplay(args []string) error {
 		}
 		tw.Emit(fx.Ev{"op": "reset", "tr": k})
 		base := s.name + "base"
-		if *cutsOn {
+		if *cutsOn || *faultPct > 0 {
 			fx.CloneTree(s.node.Root, fx.DataPrefix(base))
 			fx.StartLog()
 		}
+		rng := rand.New(rand.NewSource(seed()*7919 + int64(k)))
 		i := 0
 		for _, gop := range beh {
 			sub, err := s.expand(gop)
@@ -695,6 +698,58 @@ func xstateReplay(args []string) error {
 				return fmt.Errorf("behaviour %d (%v): %v", k, gop, err)
 			}
 			for _, op := range sub {
+				// C05: with probability faultPct the (j+1)-th storage write of the operation is made to fail; the
+				// failed attempt is recorded (live and reopened projection), then the operation is run again.
+				if *faultPct > 0 && op.Str("op") != "restart" && rng.Intn(100) < *faultPct {
+					j := rng.Intn(4)
+					a0 := fx.LogLen()
+					fx.FailAfter(j)
+					res, extra, err := s.step(op)
+					triggered := !fx.FailPending()
+					fx.FailAfter(-1)
+					if err != nil {
+						return fmt.Errorf("behaviour %d step %d (%v, fault %d): %v", k, i, op, j, err)
+					}
+					if triggered {
+						if res == "ok" && (op.Str("op") == "mkblock") {
+							return fmt.Errorf("behaviour %d step %d: ledger stored a block although its write failed", k, i)
+						}
+						ev := fx.Ev{"tr": k, "i": i, "fault": j, "done": fx.LogLen() - a0}
+						for kk, v := range op {
+							ev[kk] = v
+						}
+						for kk, v := range extra {
+							ev[kk] = v
+						}
+						ev["res"] = res
+						ev["obs"] = s.project(s.node)
+						if r, err := s.node.Clone(s.name + "r"); err != nil {
+							ev["reopen_err"] = err.Error()
+						} else {
+							ev["robs"] = s.project(r)
+							r.Drop()
+						}
+						tw.Emit(ev)
+						ops++
+						i++
+						nfaults++
+					} else {
+						// the operation issued fewer writes: it ran normally; record it as such
+						ev := fx.Ev{"tr": k, "i": i}
+						for kk, v := range op {
+							ev[kk] = v
+						}
+						for kk, v := range extra {
+							ev[kk] = v
+						}
+						ev["res"] = res
+						ev["obs"] = s.project(s.node)
+						tw.Emit(ev)
+						ops++
+						i++
+						continue
+					}
+				}
 				a := fx.LogLen()
 				res, extra, err := s.step(op)
 				if err != nil {
@@ -752,13 +807,13 @@ func xstateReplay(args []string) error {
 				i++
 			}
 		}
-		if *cutsOn {
+		if *cutsOn || *faultPct > 0 {
 			fx.StopLog()
 			fx.DropTree(fx.DataPrefix(base))
 		}
 		s.node.Drop()
 	}
 	tw.Emit(fx.Ev{"op": "reset", "tr": len(behs)}) // closing line: the last operation's cut is judged one step later
-	fmt.Printf("{\"behaviours\":%d,\"ops\":%d,\"cuts\":%d}\n", len(behs), ops, ncuts)
+	fmt.Printf("{\"behaviours\":%d,\"ops\":%d,\"cuts\":%d,\"faults\":%d}\n", len(behs), ops, ncuts, nfaults)
 	return nil
 }
